@@ -105,3 +105,18 @@ Proof.
     + exists (RComplete k :: es'). exact H.
     + exists (RComplete k :: es'). exact H.
 Qed.
+
+(* the same for a fetch that moves the dependency on itself before returning: one step is one plain step *)
+Lemma self_step_plain s e : exists e', rstep_self s e = rstep_fn s e'.
+Proof.
+  destruct e as [v|k]; cbn [rstep_self]; [exists (RWrite v); reflexivity|].
+  destruct (nth_error (r_fetches s) k) as [[d [|]]|]; try (exists (RComplete k); reflexivity).
+  destruct (feeds d); [exists (RWrite (d + 1)%Z) | exists (RComplete k)]; reflexivity.
+Qed.
+
+Lemma self_is_plain : forall es s, exists es', fold_left rstep_self es s = fold_left rstep_fn es' s.
+Proof.
+  induction es as [|e es IH]; intros s; [exists []; reflexivity|].
+  cbn [fold_left]. destruct (self_step_plain s e) as [e' He]. rewrite He.
+  destruct (IH (rstep_fn s e')) as [es' Hes]. exists (e' :: es'). exact Hes.
+Qed.
